@@ -661,6 +661,26 @@ fn finder_needles(thorough: bool) -> Vec<Vec<u8>> {
     let mut v = spaces::AllStrings { letters: b"ab".to_vec(), minlen: 0, maxlen: if thorough { 5 } else { 4 } }.all();
     v.extend(pf_needles());
     v.extend(spaces::ln_needles(&[33, 65], 2).into_iter().step_by(if thorough { 1 } else { 3 }));
+    // every needle length around the sizes a small-buffer / inline
+    // representation would use, with last (and first) bytes that could be
+    // mistaken for a length or a tag
+    let mut lens: Vec<usize> = (1..=40).collect();
+    lens.extend_from_slice(&[47, 48, 63, 64, 65, 127, 128, 255, 256, 257]);
+    for l in lens {
+        for &edge in &[0u8, 1, 7, 8, 15, 16, 17, 23, 24, 31, 32, l as u8, (l as u8).wrapping_sub(1), 0x80, 0xff] {
+            let mut n = vec![b'k'; l];
+            n[l - 1] = edge;
+            v.push(n.clone());
+            if !thorough && l > 40 {
+                continue;
+            }
+            let mut n2 = vec![b'k'; l];
+            n2[0] = edge;
+            v.push(n2);
+        }
+    }
+    v.sort();
+    v.dedup();
     v
 }
 
